@@ -7,9 +7,11 @@ N_QUICK, N_THOROUGH = 16000, 400000
 T_QUICK, T_THOROUGH = 60, 1200
 FLOORS = {"histories": 1000, "growths": 200, "frees": 5000, "stamp_checks": 20000}
 FLOORS["impossible_requests_refused"] = 200
+FLOORS["buffers_copied"] = 500
+FLOORS["audits_of_the_other_buffer"] = 10000
 FLOORS_THOROUGH = {"suite:runs": 1, "suite:allocs": 300}
 RULE = ("random walks over {allocate(size, aligned|packed), free(live), grow(n)} x capacity x alignment x "
-        "grow_step x both CPU buffer kinds, plus exhaustive small-scope histories (capacity<=16, 4 sizes, "
+        "grow_step x both CPU buffer kinds (in 20% of the histories the buffer is copied by copy.deepcopy or a pickle round trip at some point and both buffers are driven on, each audited after every event of the other), plus exhaustive small-scope histories (capacity<=16, 4 sizes, "
         "depth 4 quick / 5 thorough); after EVERY event: bounds, alignment, pairwise disjointness, and a "
         "unique byte stamp per live region re-verified. distinct = (kind, capacity class, alignment, "
         "grow_step, length class, first 12 op kinds); a case is non-trivial when it has >= 5 ops.")
